@@ -150,6 +150,12 @@ impl Args {
     pub fn from_vec(v: Vec<Primitive>) -> (r: Args)
         ensures r.v == v, r.i == 0
     { unimplemented!() }
+    // `v.iter().cloned()`: hands out a clone of every element, the vector is untouched (`Primitive: Clone` is derived:
+    // a clone is an equal value -- trusted)
+    #[verifier::external_body]
+    pub fn cloned(buffer: &Vec<Primitive>) -> (r: Args)
+        ensures r.v@ == buffer@, r.i == 0
+    { unimplemented!() }
     // Vec::drain(..): hands out every element, the vector is empty afterwards
     #[verifier::external_body]
     pub fn drain_all(buffer: &mut Vec<Primitive>) -> (r: Args)
